@@ -93,7 +93,15 @@ def gen_case(ctx, idx):
     # a valid zip under a non-zip extension, and a directory named like an archive
     p = os.path.join(rng.choice(dirs), "hidden_zip.dat")
     make_zip(rng, p)
-    os.mkdir(os.path.join(rng.choice(dirs), "dir%d.zip" % idx))
+    # a DIRECTORY named like an archive, with content of its own (it is an ordinary directory: everything below it is still listed),
+    # sometimes next to a symbolic link with an archive name that points at a directory
+    dz = os.path.join(rng.choice(dirs), "dir%d.%s" % (idx, rng.choice(["zip", "jar", "ZIP", "war"])))
+    os.mkdir(dz)
+    open(os.path.join(dz, "inside.txt"), "w").close()
+    os.mkdir(os.path.join(dz, "nested"))
+    open(os.path.join(dz, "nested", "deep.txt"), "w").close()
+    if rng.random() < 0.4:
+        os.symlink(os.path.basename(dz), os.path.join(os.path.dirname(dz), "lnk%d.ear" % idx))
     return root, zips, corrupts
 
 
@@ -221,6 +229,6 @@ def run(ctx):
     st["hist"]["archives_with_unopenable_member"] = getattr(ctx, "badmember_count", 0)
     ctx.coverage.update(
         evaluations=st["evaluations"], distinct_nontrivial=len(st["distinct"]), traces_validated_against_impl=st["agreed"],
-        rule="random trees with 1-4 zip archives (0-8 members: nested dirs, stored/deflated, every file type and permission bits in the unix mode, dates across months incl. months shorter than today's day, unicode/space names), extensions .zip/.jar/.war/.ear in mixed case, a zip under another extension, a directory named *.zip, corrupt archives (truncated, flipped central-directory bytes, garbage), archives with one member that cannot be opened (marked encrypted; it is skipped, the rest listed) x bfs/dfs x maxdepth: ordinary rows unchanged, members exactly once after their archive in index order, member columns (name, size, is_dir, mode, modified) = what the archive stores, WHERE/ORDER BY/LIMIT apply; exact row sequence vs model.Walk; plus every truncation point of one archive. non-trivial = at least two members",
+        rule="random trees with 1-4 zip archives (0-8 members: nested dirs, stored/deflated, every file type and permission bits in the unix mode, dates across months incl. months shorter than today's day, unicode/space names), extensions .zip/.jar/.war/.ear in mixed case, a zip under another extension, a non-empty directory named *.zip / *.jar (and a link to it named *.ear), corrupt archives (truncated, flipped central-directory bytes, garbage), archives with one member that cannot be opened (marked encrypted; it is skipped, the rest listed) x bfs/dfs x maxdepth: ordinary rows unchanged, members exactly once after their archive in index order, member columns (name, size, is_dir, mode, modified) = what the archive stores, WHERE/ORDER BY/LIMIT apply; exact row sequence vs model.Walk; plus every truncation point of one archive. non-trivial = at least two members",
         samples=st["samples"], distribution=dict(st["hist"]))
     return ctx.finish(trusted=["the zip listing (which members a readable archive has) is an input: Python zipfile writes the archives, the zip crate reads them; corrupt archives are only required not to abort or lose other rows"])
